@@ -403,7 +403,10 @@ def mon_c04(k, domain, check_ip, offered, up_frames, wildcard=False, srv="srv"):
                 if (c0 in b"lp" or text[:1] in HEX) and permitted(s, kw["src"][0]):
                     # may be accepted and held back without an answer (lazy mode)
                     s["last_maybe_s"] = max(s["last_maybe_s"], now_s)
-            pending[(kw["src"], m.id, tuple(m.qd[0][0]))] = (uid, now_s, kw["src"][0], silent)
+            # whether the source was the address the slot was bound to *when the request arrived* (a later
+            # sanctioned rebind must not make an earlier, legitimately held query look foreign)
+            pending[(kw["src"], m.id, tuple(m.qd[0][0]))] = (uid, now_s, kw["src"][0], silent,
+                                                             s is None or permitted(s, kw["src"][0]))
             continue
         if kind != "send":
             continue
@@ -468,7 +471,7 @@ def mon_c04(k, domain, check_ip, offered, up_frames, wildcard=False, srv="srv"):
         if s is None or q is None:
             # q is None: answer to a remembered duplicate / from the answer cache - carries no new acceptance
             continue
-        q_uid, q_s, q_ip, silent = q
+        q_uid, q_s, q_ip, silent, q_permitted = q
         is_pd = c == b"p" or text[:1] in HEX
         served = False
         if c == b"l":
@@ -492,7 +495,7 @@ def mon_c04(k, domain, check_ip, offered, up_frames, wildcard=False, srv="srv"):
             if silent is not None and silent >= 62:
                 bad("C04:expired-session-served", "%s naming slot %d was served %d s after the slot's last (possibly) accepted message"
                     % (what, uid, silent), ev, slot=uid)
-            elif check_ip and q_ip != s["owner"]:
+            elif check_ip and not q_permitted:
                 bad("C04:foreign-source-served", "%s naming slot %d (bound to %s) from %s was served with %r"
                     % (what, uid, s["owner"], q_ip, p[:12]), ev, slot=uid)
             else:
@@ -503,7 +506,7 @@ def mon_c04(k, domain, check_ip, offered, up_frames, wildcard=False, srv="srv"):
             if silent is not None and silent >= 61:
                 st["c04_expired_requests_refused"] += 1
                 kinds.add(("expired-refused", "l" if c == b"l" else "pd" if is_pd else c.decode()))
-            elif check_ip and q_ip != s["owner"]:
+            elif check_ip and not q_permitted:
                 st["c04_foreign_requests_refused"] += 1
                 kinds.add(("foreign-refused", "l" if c == b"l" else "pd" if is_pd else c.decode()))
     return viol, st, kinds
